@@ -8,9 +8,11 @@
 //! Layers per (type, ring), all complete enumerations of their stated bounds:
 //!  U  every polynomial of the enumeration A (<= 2 / <= 3 terms, exponents {0,1,2} resp. {-1,0,1,2},
 //!     coefficients {1,-1,2,-2} (+1/2 over Q, +i over Z[i]; all non-zero elements of F_p)):
-//!     construction, every observer, negation, scalar multiplication in every calling form;
-//!  S  A x special partners (0, 1, -1, 2, x0, 1±x0, x0±xl, x0^-1, ...) in both orders: +, -, * —
-//!     a constant meets a non-constant in `*=` on either side;
+//!     construction, every observer, negation, scalar multiplication in every calling form (two forms
+//!     on the three-term polynomials of the thorough tier);
+//!  S  (polynomials of A with <= 2 terms) x special partners (0, 1, 2, x0, 1-x0, x0+xl, x0^-1; thorough
+//!     also -1, -x0, 1+x0, 2x0^2, x0-xl, xl, xl^-1+x0) in both orders: +, -, * — a constant meets a
+//!     non-constant in `*=` on either side;
 //!  P  all ordered pairs of a pair alphabet (the largest rung of a fixed ladder of enumerations that
 //!     fits the pair budget): +, -, * in all six calling forms, `==`;
 //!  T  ring axioms as identities between library values over all triples of a small alphabet;
@@ -804,6 +806,11 @@ impl<'a, P: Sut> Px<'a, P> {
 
     /// one binary operation in the given calling forms; the first good result is fully observed
     fn binary(&self, op: Op, forms: &[usize], a: &(P, RP<KRef<P>>), b: &(P, RP<KRef<P>>)) -> Option<(P, RP<KRef<P>>)> {
+        self.binary_opt(op, forms, a, b, true)
+    }
+
+    /// `observe = false`: stored terms / nterms / is_zero only (used for the sub-expressions of the axioms)
+    fn binary_opt(&self, op: Op, forms: &[usize], a: &(P, RP<KRef<P>>), b: &(P, RP<KRef<P>>), observe: bool) -> Option<(P, RP<KRef<P>>)> {
         if !P::in_domain(op, &a.1, &b.1) {
             tick(C::OutOfDomain, 1);
             return None;
@@ -820,7 +827,7 @@ impl<'a, P: Sut> Px<'a, P> {
             match self.light(op.name(), FORMS[f], &args, catch(|| P::bin(op, f, &a.0, &b.0)), &e) {
                 Some(v) => {
                     if first.is_none() {
-                        if !self.full(op.name(), &args, &v, &e) {
+                        if observe && !self.full(op.name(), &args, &v, &e) {
                             all_ok = false;
                         }
                         first = Some(v);
@@ -1082,7 +1089,9 @@ where
         for (c, k) in &scalars {
             let e = r.scale(k);
             let sargs = || format!("{}|{}", r.show(), k.show());
-            for f in 0..6 {
+            // all six calling forms on polynomials with at most two terms, two forms beyond
+            let forms: &[usize] = if r.nterms() <= 2 { &[0, 1, 2, 3, 4, 5] } else { &[3, 5] };
+            for &f in forms {
                 if let Some(v) = px.light("scalar_mul", FORMS[f], &sargs, catch(|| P::scal(f, &a.0, c)), &e) {
                     if f == 5 {
                         px.full("scalar_mul", &sargs, &v, &e);
@@ -1185,44 +1194,44 @@ where
             return;
         }
         let (a, b) = (&t_polys[ij / nt], &t_polys[ij % nt]);
-        let ab_s = px.binary(Op::Add, &one, a, b);
-        let ba_s = px.binary(Op::Add, &one, b, a);
+        let ab_s = px.binary_opt(Op::Add, &one, a, b, false);
+        let ba_s = px.binary_opt(Op::Add, &one, b, a, false);
         ident("a+b=b+a", &a.1, &b.1, &RP::zero(), ab_s.clone(), ba_s);
-        let ab_p = if P::HAS_MUL { px.binary(Op::Mul, &one, a, b) } else { None };
+        let ab_p = if P::HAS_MUL { px.binary_opt(Op::Mul, &one, a, b, false) } else { None };
         if P::HAS_MUL {
-            ident("a*b=b*a", &a.1, &b.1, &RP::zero(), ab_p.clone(), px.binary(Op::Mul, &one, b, a));
+            ident("a*b=b*a", &a.1, &b.1, &RP::zero(), ab_p.clone(), px.binary_opt(Op::Mul, &one, b, a, false));
         }
-        ident("(a-b)+b=a", &a.1, &b.1, &RP::zero(), px.binary(Op::Sub, &one, a, b).and_then(|d| px.binary(Op::Add, &one, &d, b)), Some(a.clone()));
+        ident("(a-b)+b=a", &a.1, &b.1, &RP::zero(), px.binary_opt(Op::Sub, &one, a, b, false).and_then(|d| px.binary_opt(Op::Add, &one, &d, b, false)), Some(a.clone()));
         for c in &t_polys {
             tick(C::Triples, 1);
-            let bc_s = px.binary(Op::Add, &one, b, c);
+            let bc_s = px.binary_opt(Op::Add, &one, b, c, false);
             ident(
                 "(a+b)+c=a+(b+c)",
                 &a.1,
                 &b.1,
                 &c.1,
-                ab_s.as_ref().and_then(|s| px.binary(Op::Add, &one, s, c)),
-                bc_s.as_ref().and_then(|s| px.binary(Op::Add, &one, a, s)),
+                ab_s.as_ref().and_then(|s| px.binary_opt(Op::Add, &one, s, c, false)),
+                bc_s.as_ref().and_then(|s| px.binary_opt(Op::Add, &one, a, s, false)),
             );
             if P::HAS_MUL {
-                let bc_p = px.binary(Op::Mul, &one, b, c);
-                let ac_p = px.binary(Op::Mul, &one, a, c);
+                let bc_p = px.binary_opt(Op::Mul, &one, b, c, false);
+                let ac_p = px.binary_opt(Op::Mul, &one, a, c, false);
                 ident(
                     "(a*b)*c=a*(b*c)",
                     &a.1,
                     &b.1,
                     &c.1,
-                    ab_p.as_ref().and_then(|s| px.binary(Op::Mul, &one, s, c)),
-                    bc_p.as_ref().and_then(|s| px.binary(Op::Mul, &one, a, s)),
+                    ab_p.as_ref().and_then(|s| px.binary_opt(Op::Mul, &one, s, c, false)),
+                    bc_p.as_ref().and_then(|s| px.binary_opt(Op::Mul, &one, a, s, false)),
                 );
                 ident(
                     "a*(b+c)=a*b+a*c",
                     &a.1,
                     &b.1,
                     &c.1,
-                    bc_s.as_ref().and_then(|s| px.binary(Op::Mul, &one, a, s)),
+                    bc_s.as_ref().and_then(|s| px.binary_opt(Op::Mul, &one, a, s, false)),
                     match (&ab_p, &ac_p) {
-                        (Some(x), Some(y)) => px.binary(Op::Add, &one, x, y),
+                        (Some(x), Some(y)) => px.binary_opt(Op::Add, &one, x, y, false),
                         _ => None,
                     },
                 );
@@ -1512,7 +1521,7 @@ fn main() {
     let th = run.thorough();
     let bud = Budget {
         terms: if th { 3 } else { 2 },
-        pair_budget: if th { 4_000_000 } else { 200_000 },
+        pair_budget: if th { 2_500_000 } else { 200_000 },
         hist_depth: if th { 4 } else { 3 },
         hist_states: 1_500_000,
         all_specials: th,
@@ -1521,9 +1530,10 @@ fn main() {
     // run concurrently (each one parallelises its own enumeration with `par_for`)
     type Job<'a> = Box<dyn Fn() -> Value + Send + Sync + 'a>;
     let mut jobs: Vec<(&'static str, Job)> = vec![];
+    let mut weights: Vec<u32> = vec![];
     let (r, b) = (&run, &bud);
     macro_rules! ring {
-        ($r:ty) => {{
+        ($r:ty, $w:expr) => {{
             jobs.push(("kind", Box::new(move || run_kind::<PolyBase<MultiVar<'x', isize>, $r>>(r, b))));
             jobs.push(("kind", Box::new(move || run_kind::<PolyBase<MultiVar<'x', usize>, $r>>(r, b))));
             jobs.push(("kind", Box::new(move || run_kind::<PolyBase<Var3<'x', 'y', 'z', usize>, $r>>(r, b))));
@@ -1533,13 +1543,15 @@ fn main() {
             jobs.push(("kind", Box::new(move || run_kind::<PolyBase<Var<'x', usize>, $r>>(r, b))));
             jobs.push(("kind", Box::new(move || run_kind::<HPoly<'x', $r>>(r, b))));
             jobs.push(("kind", Box::new(move || run_kind::<Lc<Free<i32>, $r>>(r, b))));
+            // heaviest first: three-variable Laurent kinds, larger coefficient alphabets
+            weights.extend([900 + $w, 500 + $w, 400 + $w, 300 + $w, 200 + $w, 100 + $w, 50 + $w, 1, 20 + $w]);
         }};
     }
-    ring!(i64);
-    ring!(Ratio<i64>);
-    ring!(GaussInt<i64>);
-    ring!(FF<3>);
-    ring!(FF2);
+    ring!(i64, 30);
+    ring!(Ratio<i64>, 50);
+    ring!(GaussInt<i64>, 40);
+    ring!(FF<3>, 10);
+    ring!(FF2, 5);
     jobs.push(("order", Box::new(move || mono_layer::<Var<'x', usize>>(r, th))));
     jobs.push(("order", Box::new(move || mono_layer::<Var<'x', isize>>(r, th))));
     jobs.push(("order", Box::new(move || mono_layer::<Var2<'x', 'y', usize>>(r, th))));
@@ -1551,8 +1563,12 @@ fn main() {
     jobs.push(("eval", Box::new(move || eval_layer!(r, PolyBase<Var<'x', usize>, i64>, 1, b.terms, vec![-2, -1, 0, 1, 2, 3], |p, pt| p.eval(&pt[0])))));
     jobs.push(("eval", Box::new(move || eval_layer!(r, PolyBase<Var2<'x', 'y', usize>, i64>, 2, b.terms, vec![-2, -1, 0, 1, 3], |p, pt| p.eval(&pt[0], &pt[1])))));
     jobs.push(("eval", Box::new(move || eval_layer!(r, PolyBase<Var3<'x', 'y', 'z', usize>, i64>, 3, b.terms, vec![-1, 0, 2], |p, pt| p.eval(&pt[0], &pt[1], &pt[2])))));
+    weights.resize(jobs.len(), 60);
+    let mut order: Vec<usize> = (0..jobs.len()).collect();
+    order.sort_by_key(|&i| std::cmp::Reverse(weights[i]));
     let results: std::sync::Mutex<Vec<(usize, Value)>> = std::sync::Mutex::new(vec![]);
-    run.par_for_threads(jobs.len(), 6, |i| {
+    run.par_for_threads(jobs.len(), 6, |x| {
+        let i = order[x];
         let t0 = std::time::Instant::now();
         let mut v = (jobs[i].1)();
         if let Some(o) = v.as_object_mut() {
@@ -1591,7 +1607,8 @@ fn main() {
             "lex / graded lex are judged against the textbook definitions with x0 > x1 > x2 (the convention documented in the library source); the order axioms are reported under separate keys (poly:order:*) from the definition check (poly:order-def:*)",
             "eval exists only where `&R: Pow<&I>` does: R = i64 with unsigned exponents (Poly, Poly2, Poly3); PolyN has no eval",
             "HPoly: sums are defined for equal degrees only (the library asserts), other sums are outside the domain",
-            "binary operations on all ordered pairs use the largest rung of a fixed ladder of enumerations that fits the pair budget (recorded per type); the full enumeration A is covered by the unary layer and by the special partners",
+            "binary operations on all ordered pairs use the largest rung of a fixed ladder of enumerations that fits the pair budget (recorded per type); the full enumeration A is covered by the unary layer and (its polynomials with at most two terms) by the special partners in both operand orders",
+            "LPoly3 (Var3 with signed exponents) is covered only in the monomial layer (orders, product, quotient)",
         ],
     );
 }
